@@ -402,6 +402,8 @@ def run(ctx):
                                             rng.choice(sorted(default_subclasses())).upper()])
                 elif n["k"] == "prop" and n["dtype"] in ("string", "text") and n["values"] and rng.random() < 0.15:
                     n["values"].insert(rng.randrange(len(n["values"]) + 1), "")     # the empty text is a value like any other
+            if rng.random() < 0.08:
+                s["sections"] = []          # a Document that only has attributes is a document like any other
             specs.append(s)
         case = {"specs": [enc(s) for s in specs], "i": i}
         if not ctx.quick() or i % 3 == 0:
